@@ -347,13 +347,10 @@ class Explorer:
         else:
             # no verdict: look for a *candidate* counter-model under a weaker path condition (quantified facts dropped);
             # it only counts if the native replay on the real code confirms it.
-            qf = [c for c in self.pc if not _has_quantifier(c)]
-            if len(qf) < len(self.pc):
-                st2, be2, dt2, model2 = solve(qf + [z3.Not(cond)], timeout_ms=5000, cvc5=False)
-                self.solver_seconds += dt2
-                if st2 == "sat":
-                    self.results.append(Obligation(name, "failed", be2 + "(candidate)", dt + dt2, model=self.model_values(model2), path=list(self.decisions[: self.pos])))
-                    return
+            cand = self.candidate_search(cond)
+            if cand is not None:
+                self.results.append(Obligation(name, "failed", "z3-5.1(candidate)", dt, model=cand, path=list(self.decisions[: self.pos])))
+                return
             if os.environ.get("PYVC_DEBUG"):
                 sd = z3.Solver()
                 sd.add(*self.pc, z3.Not(cond))
@@ -361,7 +358,50 @@ class Explorer:
                 open(os.path.join(os.path.dirname(os.path.dirname(os.path.abspath(__file__))), ".scratch", f"unknown-{self.name}-{name}-{len(self.results)}.smt2".replace("/", "_")), "w").write(sd.to_smt2())
             self.results.append(Obligation(name, "undecided", backend, dt, path=list(self.decisions[: self.pos]), detail="solver unknown"))
 
-    def model_values(self, model):
+    def candidate_search(self, cond):
+        """Bounded search for a candidate counter-model when the solvers answer unknown: sequences are replaced by
+        concrete-length sequences of fresh elements (total length <= 3) and strings get a length bound. A candidate
+        only counts after native replay on the real code."""
+        seqs = [(n, c, k[4:]) for n, (k, c) in self.symbols.items() if k.startswith("seq:")]
+        strs = [c for n, (k, c) in self.symbols.items() if k in ("str", "bytes")]
+        goal = self.pc + [z3.Not(cond)]
+        t_end = time.time() + 20
+        import itertools
+
+        lens_opts = list(itertools.product(range(0, 4), repeat=len(seqs))) if seqs else [()]
+        lens_opts = [l for l in lens_opts if sum(l) <= 4][:12]
+        for lens in lens_opts:
+            if time.time() > t_end:
+                break
+            subst = []
+            elems = {}
+            for (n, c, elem), L in zip(seqs, lens):
+                sort = c.sort().basis()
+                es = [z3.Const(f"{n}${L}${i}", sort) for i in range(L)]
+                elems[n] = es
+                term = z3.Empty(c.sort()) if L == 0 else (z3.Unit(es[0]) if L == 1 else z3.Concat(*[z3.Unit(e) for e in es]))
+                subst.append((c, term))
+            g = [z3.substitute(f, *subst) for f in goal] if subst else list(goal)
+            g += [z3.Length(sc) <= 8 for sc in strs]
+            s = z3.Solver()
+            s.set("timeout", 3000)
+            s.add(*g)
+            t0 = time.time()
+            r = s.check()
+            self.solver_seconds += time.time() - t0
+            if r == z3.sat:
+                m = s.model()
+                out = self.model_values(m, skip_seq=True)
+                for (n, c, elem), L in zip(seqs, lens):
+                    items = []
+                    for e in elems[n]:
+                        x = m.eval(e, model_completion=True)
+                        items.append(x.as_long() if elem == "int" else bool(z3.is_true(x)) if elem == "bool" else {"bytes": str_value_to_bytes(x).hex()} if elem == "bytes" else {"str": str_value_to_pystr(x)})
+                    out[n] = {"seq": items}
+                return out
+        return None
+
+    def model_values(self, model, skip_seq=False):
         if model is None:
             return None
         out = {}
@@ -377,6 +417,8 @@ class Explorer:
                 elif kind == "bytes":
                     out[name] = {"bytes": str_value_to_bytes(v).hex()}
                 elif kind.startswith("seq:"):
+                    if skip_seq:
+                        continue
                     elem = kind[4:]
                     items = []
                     n = model.eval(z3.Length(c), model_completion=True).as_long()
